@@ -162,34 +162,36 @@ def run(A, R: Report, thorough: bool):
     ctor_calls = [(f, n) for f in [frec] + list(frec.nested.values()) for n in A.typer.own_nodes(f) if isinstance(n, ast.Call) and src(n.func) == 'TaskParameterConfig']
     R.require(ctor_calls, 'anchor: TaskParameterConfig(...) construction not found in _recreate_tasks_with_parameter_config')
     for f, c in ctor_calls:
-        arg = subst_single_assign(A, f, c.args[1]) if len(c.args) > 1 else None
         ok = False
-        if isinstance(arg, ast.DictComp):
-            g = arg.generators[0]
-            rec_call = isinstance(arg.value, ast.Call) and isinstance(arg.value.func, ast.Name) and arg.value.func.id == f.name
-            it_ok = src(g.iter).endswith('.input_tasks.items()') and src(g.iter).split('.')[0] == src(c.args[0])
-            filt_ok = all(isinstance(i, ast.Call) and src(i.func) == 'isinstance' and src(i.args[1]) == 'Task' for i in g.ifs)
-            ok = rec_call and it_ok and filt_ok
-        R.check(ok, 'R01.2', f'{f.short}: TaskParameterConfig(...)', key_of('recreated-inputs', src(arg)[:120] if arg is not None else None), 'inputs passed are the recreated (second-pass) tasks of all Task inputs',
-                'the parameter config is built from first-pass / filtered inputs: upstream keys do not chain into this key', where=where(f, c))
+        shown = src(c.args[1])[:120] if len(c.args) > 1 else None
+        if len(c.args) > 1:
+            at = A.sym.terms_at(f, ('inst', A.cls('Chain')), [c.args[0], c.args[1]])
+            olds, news = at[id(c.args[0])], at[id(c.args[1])]
+            ok = bool(news) and len(olds) == 1
+            for t in news:
+                shown = pretty(t)[:160]
+                # {name: <recursive call>(name, input) for name, input in <old task>.input_tasks.items() [if isinstance(input, Task)]}
+                good = t[0] == 'mapdict' and len(t[1]) == 2 and t[2] == t[1][0] and t[3] == ('call', f.name, (t[1][0], t[1][1])) \
+                    and t[4][0] == 'items' and t[4][1][0] == 'attr' and t[4][1][1] == olds[0] and t[4][1][2] in ('input_tasks', '_input_tasks') \
+                    and (t[5] is None or (t[5][0] == 'isinst' and t[5][1] == t[1][1] and t[5][2] == ('global', 'Task')))
+                ok = ok and good
+        R.check(ok, 'R01.2', f'{f.short}: TaskParameterConfig(...)', key_of('recreated-inputs', shown), 'inputs passed are the recreated (second-pass) tasks of all Task inputs',
+                'the parameter config is built from first-pass / filtered inputs: upstream keys do not chain into this key', witness=[str(shown)], where=where(f, c))
 
     # ---- R01.3 / registry
     R.rule('R01.3', 'second-pass registry key is (task identity, storage key)', floor=1)
     fct = A.func('Chain._create_task')
-    cfg = A.cfg(fct)
-    key_assigns = [n for n in A.typer.own_nodes(fct) if isinstance(n, ast.Assign) and any(src(t) == 'key' for t in n.targets)]
-    tpc_keys = []
-    for ka in key_assigns:
-        for cn in cfg_nodes_for(cfg, ka):
-            facts = [(src(a), pol) for a, pol in cfg.facts_at(cn.id)]
-            if any('TaskParameterConfig' in t and pol for t, pol in facts):
-                tpc_keys.append(ka)
-    if not tpc_keys:
-        R.undecided('R01.3', 'Chain._create_task', 'key assignment for TaskParameterConfig not recognised', where=where(fct))
-    for ka in tpc_keys:
-        v = src(ka.value)
-        ok = 'name_for_persistence' in v and ('slugname' in v or '__class__' in v or 'task_class' in v)
-        R.check(ok, 'R01.3', 'Chain._create_task: parameter-mode key', key_of('tpc-key', v), f'key = {v}', f'registry key `{v}` does not contain both the task identity and its storage key: different computations would share one task object', where=where(fct, ka))
+    from .c13 import registry_key_branches
+    from ..terms import dag_nodes as _dn
+    branches = registry_key_branches(A)
+    if not branches:
+        R.undecided('R01.3', 'Chain._create_task', 'key for TaskParameterConfig not recognised', where=where(fct))
+    for t in branches:
+        nodes = _dn(t)
+        ok = any(x[0] == 'ref' and x[1].endswith('name_for_persistence') for x in nodes) and \
+            any((x[0] == 'attr' and x[2] in ('slugname', '__class__')) or x == ('p', 'task_class') for x in nodes)
+        R.check(ok, 'R01.3', 'Chain._create_task: parameter-mode key', key_of('tpc-key', pretty(t)[:160]), f'key = {pretty(t)[:100]}',
+                f'registry key `{pretty(t)[:160]}` does not contain both the task identity and its storage key: different computations would share one task object', where=where(fct))
     check_registry_reuse(A, R, 'R01.3b')
 
     # ---- R01.4 parameter provenance
